@@ -499,65 +499,82 @@ class Render:
     SRC = {"str": "tr.Str(%d)", "ints": "tr.Ints(%d)", "arr": "tr.Arr(%d)", "map1": "tr.Map1(%d)", "map2": "tr.Map2(%d)",
            "chan": "tr.Chan(%d)", "n": "tr.N(%d)", "anys": "tr.Anys(%d)"}
 
-    def rangestmt(self, s, ind):
-        e = self.emit
+    @classmethod
+    def range_parts(cls, s):
+        """The pieces of a rendered range statement: lines before the loop, the range operand, the lines at the top of the
+        body (strings, or ("if", cond, [lines]) for the one compound statement), lines after the loop."""
         kind, form, i = s["kind"], s["form"], s["id"]
         k, v = "k%d" % i, "v%d" % i
-        src = self.SRC[kind] % i
-        if s["closure"]:
-            e(ind, "func() {")
-            ind += 1
+        src = cls.SRC[kind] % i
+        pre, inner, post = [], [], []
         if s.get("mutate") or kind in ("arr", "map2"):
             # arrays are always bound to a variable first: ranging over an unaddressable array
             # does not build after rewriting (recorded finding F4, kept in the findings corpus)
-            e(ind, "c%d := %s" % (i, src))
+            pre.append("c%d := %s" % (i, src))
             src = "c%d" % i
         if form.endswith("=") and not form.endswith(":="):
             vt = {"str": "rune", "anys": "any"}.get(kind, "int")
-            e(ind, "var %s int" % k)
-            e(ind, "_ = %s" % k)
+            pre.append("var %s int" % k)
+            pre.append("_ = %s" % k)
             if form == "kv=":
-                e(ind, "var %s %s" % (v, vt))
-                e(ind, "_ = %s" % v)
+                pre.append("var %s %s" % (v, vt))
+                pre.append("_ = %s" % v)
         head = {"kv:=": "for %s, %s := range %s {" % (k, v, src), "k:=": "for %s := range %s {" % (k, src),
                 "_v:=": "for _, %s := range %s {" % (v, src), "none": "for range %s {" % src,
                 "kv=": "for %s, %s = range %s {" % (k, v, src), "k=": "for %s = range %s {" % (k, src)}[form]
-        e(ind, head)
         uid = s["uid"]
         if kind == "map2" and s.get("upd") and form == "kv:=":
             # update the other entry: Go reads the value when the entry is visited, so the second
             # iteration (whichever it is) sees the update; keys are not logged
-            e(ind + 1, "c%d[3-%s] += 100" % (i, k))
-            e(ind + 1, "tr.U(%d, %s-10*%s)" % (uid, v, k))
+            inner.append("c%d[3-%s] += 100" % (i, k))
+            inner.append("tr.U(%d, %s-10*%s)" % (uid, v, k))
         elif kind == "map2":
             # delete the other entry: exactly one iteration in any order; the key itself is not logged
-            e(ind + 1, "delete(c%d, 3-%s)" % (i, k))
-            e(ind + 1, "tr.U(%d, len(c%d))" % (uid, i))
+            inner.append("delete(c%d, 3-%s)" % (i, k))
+            inner.append("tr.U(%d, len(c%d))" % (uid, i))
             if form == "kv:=":
-                e(ind + 1, "tr.U(%d, %s/%s)" % (uid, v, k))
+                inner.append("tr.U(%d, %s/%s)" % (uid, v, k))
         elif form in ("kv:=", "k:=", "kv=", "k="):
-            e(ind + 1, "tr.U(%d, %s)" % (uid, k))
+            inner.append("tr.U(%d, %s)" % (uid, k))
         if kind != "map2" and form in ("kv:=", "_v:=", "kv="):
             if kind == "anys":
-                e(ind + 1, "tr.UA(%d, %s)" % (uid, v))
+                inner.append("tr.UA(%d, %s)" % (uid, v))
             else:
-                e(ind + 1, "tr.U(%d, int(%s))" % (uid, v))
+                inner.append("tr.U(%d, int(%s))" % (uid, v))
         if s.get("mutate") and kind == "n":
             # the bound and the iteration variable are written by the body: Go evaluated the bound once
             # and hands the body a fresh copy of the iteration value
-            e(ind + 1, "c%d -= 2" % i)
+            inner.append("c%d -= 2" % i)
             if form == "k:=":
-                e(ind + 1, "%s += 3" % k)
-                e(ind + 1, "tr.U(%d, %s)" % (uid, k))
+                inner.append("%s += 3" % k)
+                inner.append("tr.U(%d, %s)" % (uid, k))
         elif s.get("mutate"):
             if kind == "ints":
-                e(ind + 1, "if len(c%d) > 0 { c%d[len(c%d)-1] += 1000; c%d = append(c%d, 1) }" % (i, i, i, i, i))
+                inner.append(("if", "len(c%d) > 0" % i, ["c%d[len(c%d)-1] += 1000" % (i, i), "c%d = append(c%d, 1)" % (i, i)]))
             else:
-                e(ind + 1, "c%d[2] += 1000" % i)
+                inner.append("c%d[2] += 1000" % i)
+        if form in ("kv=", "k="):
+            post.append("tr.U(%d, %s)" % (uid, k))
+        return {"pre": pre, "src": src, "head": head, "inner": inner, "post": post, "k": k, "v": v}
+
+    def rangestmt(self, s, ind):
+        e = self.emit
+        parts = self.range_parts(s)
+        if s["closure"]:
+            e(ind, "func() {")
+            ind += 1
+        for l in parts["pre"]:
+            e(ind, l)
+        e(ind, parts["head"])
+        for l in parts["inner"]:
+            if isinstance(l, tuple):
+                e(ind + 1, "if %s { %s }" % (l[1], "; ".join(l[2])))
+            else:
+                e(ind + 1, l)
         self.stmts(s["b"], ind + 1)
         e(ind, "}")
-        if form in ("kv=", "k="):
-            e(ind, "tr.U(%d, %s)" % (uid, k))
+        for l in parts["post"]:
+            e(ind, l)
         if s["closure"]:
             ind -= 1
             e(ind, "}()")
